@@ -1,5 +1,7 @@
 import CwPlus.Lemmas.Cw3Fixed
 import CwPlus.Lemmas.Cw3FixedAt
+import CwPlus.Lemmas.Cw3FixedNodup
+import CwPlus.Lemmas.Cw3CoreNodup
 /-!
 # C03 (cw3-fixed part) — a proposal's status equals the outcome its ballots imply
 
@@ -94,6 +96,54 @@ theorem rejected_executed_final {fuel : Nat} {w : World} (hr : Reachable fuel w)
   obtain ⟨p', hp', _, he⟩ := this.props id p hp
   refine ⟨p', hp', ?_⟩
   rcases hs with hs | hs <;> rw [hs] at he <;> cases hs' : p'.status <;> simp_all [edge]
+
+/-! ## the listings report the same status -/
+
+theorem mem_pageDesc {κ ν : Type} (lt : κ → κ → Bool) (xs : List (κ × ν)) (before : Option κ) (limit : Option Nat)
+    {x : κ × ν} (h : x ∈ Cw3Core.pageDesc lt xs before limit) : x ∈ xs := by
+  unfold Cw3Core.pageDesc at h
+  have h1 := List.mem_of_mem_take h
+  rw [List.mem_reverse] at h1
+  cases before with
+  | none => exact h1
+  | some c => exact (List.mem_filter.mp h1).1
+
+/-- Every entry of a successful `viewAll` over stored proposals is the view of a stored proposal, with its
+`current_status` at the query block. -/
+theorem listed_status_core {c : Core} (hn : AMap.NodupKeys c.proposals) {blk : Block} {l : List (Nat × Proposal)}
+    (hsub : ∀ x ∈ l, x ∈ c.proposals) {vs : List ProposalView} (h : viewAll blk l = .ok vs) :
+    ∀ v ∈ vs, ∃ p, c.proposals.get? v.id = some p ∧ p.currentStatus blk = .ok v.status := by
+  obtain ⟨hall, rfl⟩ := viewAll_ok_all h
+  intro v hv
+  obtain ⟨x, hx, rfl⟩ := List.mem_map.mp hv
+  obtain ⟨st, hst⟩ := hall x hx
+  refine ⟨x.2, AMap.get?_of_mem_nodup hn (hsub x hx), ?_⟩
+  simp only [viewD, hst]
+
+open Paginate in
+/-- Both proposal listings, over any core whose proposal map has one entry per id. -/
+theorem listings_status_core {c : Core} (hn : AMap.NodupKeys c.proposals) (blk : Block) (cur limit : Option Nat)
+    {vs : List ProposalView}
+    (h : Cw3Core.listProposals c blk cur limit = .ok vs ∨ Cw3Core.reverseProposals c blk cur limit = .ok vs) :
+    ∀ v ∈ vs, ∃ p, c.proposals.get? v.id = some p ∧ p.currentStatus blk = .ok v.status := by
+  rcases h with h | h
+  · exact listed_status_core hn (fun x hx => mem_sortedEntries.mp ((page_sublist _ _ _ _).subset hx)) h
+  · exact listed_status_core hn (fun x hx => mem_sortedEntries.mp (mem_pageDesc _ _ _ _ hx)) h
+
+/-- **C03 for the list queries** (`ListProposals`, `ReverseProposals`): in every reachable state, whenever a listing
+answers, every listed entry is a stored proposal under its id and the status listed for it is — exactly as for the point
+query, `status_eq_outcome` — the `Outcome` of its recorded ballots at the query block if it is stored Open, and the
+stored status otherwise. -/
+theorem listed_status_eq_outcome {fuel : Nat} {w : World} (hr : Reachable fuel w) (blk : Block) (cur limit : Option Nat)
+    {vs : List ProposalView}
+    (h : Cw3Fixed.listProposals w.ms blk cur limit = .ok vs ∨ Cw3Fixed.reverseProposals w.ms blk cur limit = .ok vs) :
+    ∀ v ∈ vs, ∃ p, w.ms.core.proposals.get? v.id = some p ∧
+      (Except.ok v.status : Res Status) =
+        if p.status = .open then Outcome p (ballotsOf w.ms.core v.id) blk else .ok p.status := by
+  intro v hv
+  obtain ⟨p, hp, hst⟩ := listings_status_core (Cw3Fixed.reachable_nodup hr) blk cur limit h v hv
+  refine ⟨p, hp, ?_⟩
+  rw [← status_eq_outcome hr hp blk, query_status _ _ _ _ hp, hst]
 
 /-! ## Execute and Close are admitted by the same status -/
 
@@ -860,5 +910,16 @@ example : Inv (run 10 exqWorld exqOps).ms ∧ YesInv (run 10 exqWorld exqOps).ms
     (execute (run 10 exqWorld exqOps).ms ⟨110, 1010⟩ "x" (.close 1)).isOk = false :=
   ⟨reachable_inv ⟨exqInst, exqState, "ms", [], true, exqOps, rfl, rfl⟩,
    reachable_yes ⟨exqInst, exqState, "ms", [], true, exqOps, rfl, rfl⟩, by decide, by decide⟩
+
+/-- non-vacuity of `listed_status_eq_outcome`: in the reachable world of `exqOps` the listing answers (inside `Inv` no
+listed proposal can fail to have a status: C04 `no_panic`) -/
+example : ∃ vs, Cw3Fixed.listProposals (run 10 exqWorld exqOps).ms ⟨110, 1010⟩ none none = .ok vs := by
+  have hr : Reachable 10 (run 10 exqWorld exqOps) := ⟨exqInst, exqState, "ms", [], true, exqOps, rfl, rfl⟩
+  refine ⟨_, viewAll_eq_map (fun x hx => ?_)⟩
+  have hm : x ∈ (run 10 exqWorld exqOps).ms.core.proposals :=
+    Paginate.mem_sortedEntries.mp ((Paginate.page_sublist _ _ _ _).subset hx)
+  have hp := AMap.get?_of_mem_nodup (Cw3Fixed.reachable_nodup hr) hm
+  have hprem := premise_of_inv (reachable_inv hr) hp
+  exact (C04.no_panic (p := x.2.tally) ⟨hprem.tally_le, hprem.total_u64, hprem.valid⟩ _).2.2
 
 end CwPlus.Props.C03
